@@ -5,7 +5,7 @@ import (
 	"path/filepath"
 )
 
-var vrfEntries = map[string]func(){"VrfC14Rotate": VrfC14Rotate}
+var vrfEntries = map[string]func(){"VrfC14Rotate": VrfC14Rotate, "VrfC14Cleanup": VrfC14Cleanup}
 
 // VrfC14Rotate: cleaning Raft data keeps it recoverable as the newest of at
 // most N rotated backups; older ones shift by one; only the oldest is dropped.
